@@ -178,6 +178,10 @@ def shard_random(spec: Dict[str, Any], rec: Rec) -> None:
     for index in range(spec['cases']):
         name = ('FixedIO', 'StandardIO', 'KeyboardIO')[index % 3]
         n_bits = rng.choice([17, 23, 64, 100, 513, 4096]) if index % 7 else rng.randrange(17, 4097)
+        if index % 13 == 5 or index < 3:
+            # a few thousand bytes of output (buffers and chunks, if a device has any, fill up and turn over)
+            n_bits = rng.choice([4096 * 8, 4096 * 8 + 8, 4095 * 8 + 3, 8192 * 8 + 16, 8192 * 8 - 1, 5000 * 8, 12289 * 8])
+            rec.count('outputs_of_thousands_of_bytes')
         bits = [rng.getrandbits(1) for _ in range(n_bits)]
         if name == 'FixedIO' and index % 2:
             data = bytes(rng.getrandbits(8) for _ in range(rng.choice([3, 5, 17, 64, 512])))
